@@ -663,20 +663,20 @@ class Messaging(object):
                 )
             return
 
-        if self._failed:
-            # Older messages for this destination may still be waiting for
-            # its registration callback (the computation is recorded in
-            # discovery before the callbacks are fired): this message must
-            # not overtake them.
-            with self._failed_lock:
-                if any(f[1] == dest_computation for f in self._failed):
-                    self._failed.append(
-                        (src_computation, dest_computation, msg, msg_type, on_error)
-                    )
-                    self._on_computation_registration(
-                        "computation_added", dest_computation, dest_agent
-                    )
-                    return
+        # Older messages for this destination may still be waiting for its
+        # registration callback (the computation is recorded in discovery
+        # before the callbacks are fired), or be in the middle of being
+        # re-posted by it: this message must not overtake them. The lock is
+        # held by the callback while it re-posts.
+        with self._failed_lock:
+            if any(f[1] == dest_computation for f in self._failed):
+                self._failed.append(
+                    (src_computation, dest_computation, msg, msg_type, on_error)
+                )
+                self._on_computation_registration(
+                    "computation_added", dest_computation, dest_agent
+                )
+                return
 
         full_msg = ComputationMessage(src_computation, dest_computation, msg, msg_type)
         if dest_agent == self._local_agent:
